@@ -7,7 +7,7 @@ from ..cfg import CFG
 from ..errors import AnalysisError
 from ..model import FuncInfo, dotted, src, walk_scope
 from ..report import Context
-from ..util import calls_in, is_self_attr, node_for, normaliser, parse_expr, path_text, reaching_events, returns_of
+from ..util import returned_value, calls_in, is_self_attr, node_for, normaliser, parse_expr, path_text, reaching_events, returns_of
 
 LEVEL_TEXT = (
     "Static analysis of mab.py / epsilon_greedy.py (no execution): reward has the normal form (ref - best)/ref exactly on "
@@ -156,8 +156,11 @@ def learn(ctx: Context) -> None:
     # step size
     gs = ctx.func(f"{AG}.get_step_size")
     ns = normaliser(prog, gs)
-    for r in returns_of(gs):
-        v = r.value
+    rv = returned_value(gs.node.body)
+    if rv is None:
+        raise AnalysisError(f"{gs.loc(gs.node)}: get_step_size is not an if/else tree of returns; cannot decide R2.step")
+    for r in returns_of(gs)[:1]:
+        v = rv
         ok = isinstance(v, ast.IfExp)
         if ok:
             c = ns.canon(v.test)
